@@ -1,6 +1,7 @@
 package utils
 
 import (
+	"sync"
 	"sync/atomic"
 	"time"
 )
@@ -29,6 +30,7 @@ var (
 const length = int64(64)
 
 type Yeast struct {
+	mu   sync.Mutex
 	seed atomic.Int64
 	prev atomic.Value
 }
@@ -59,6 +61,11 @@ func (y *Yeast) Decode(str string) int64 {
 }
 
 func (y *Yeast) Yeast() string {
+	// the comparison with prev and the update of prev/seed must be one step,
+	// otherwise concurrent callers in the same millisecond get the same id
+	y.mu.Lock()
+	defer y.mu.Unlock()
+
 	now := y.Encode(time.Now().UnixMilli())
 
 	prev, _ := y.prev.Load().(string)
